@@ -391,6 +391,10 @@ class Interp:
     def on_edge(self, st, blk, cond, truth):
         return st
 
+    def on_case(self, st, blk, cond, value):
+        """Called on the edge from a switch to `case value:` (after the controlling expression was constrained)."""
+        return st
+
     def on_root(self, st, block, index, root):
         return st
 
@@ -840,6 +844,8 @@ class Interp:
                         lab = fn.blocks[sid].label
                         if lab and lab.get("k") == "case" and "v" in lab:
                             s2 = self.constrain(s, cond, "==", lab["v"])
+                            if s2 is not None:
+                                s2 = self.on_case(s2, blk, cond, lab["v"])
                         else:
                             s2 = s
                             for v in case_vals:
